@@ -135,6 +135,8 @@ class C19(Check):
         plan["net_seed"] = rng.getrandbits(30)
         # slow node: some loop iterations cost virtual time (another callback kept the CPU), so deadlines are noticed late
         plan["stall"] = rng.choice([0.0, 0.0, 0.0, 0.05, 0.25])
+        plan["untimed"] = rng.random() < 0.3  # reads without a timeout after the timed ones
+        plan["peer_reads_late"] = rng.choice([0.0, 0.0, 0.0, 60.0])
         # a second tester connected to the same server loop at the same time (its messages carry a marker)
         plan["bystander"] = {"at": rng.choice([0.0, 0.0004, 0.3]), "n": rng.choice([1, 3, 8]), "gap": rng.choice([0.0, 0.0007, 0.1])} if rng.random() < 0.3 else None
         # the opposite direction (produced by the code under test) gets a random network segmentation
@@ -214,6 +216,10 @@ class C19(Check):
 
                 async def peer(reader: asyncio.StreamReader, writer: asyncio.StreamWriter) -> None:
                     async def rx() -> None:
+                        if plan.get("peer_reads_late"):
+                            # a peer that gets round to reading only after the client has long closed: everything the
+                            # client wrote before it closed must still be there
+                            await asyncio.sleep(plan["peer_reads_late"])
                         while True:
                             c = await reader.read(65536)
                             if not c:
@@ -241,13 +247,16 @@ class C19(Check):
                 if plan.get("late_drain"):
                     # a reader that comes late: complete lines and the peer's close are already buffered
                     await asyncio.sleep(plan["late_drain"])
-                # drain: long timeouts until everything arrived (or EOF / error)
+                # drain: long timeouts until everything arrived (or EOF / error); with "untimed" a read without timeout
+                # while messages are still to come (it must return the complete next message just like a timed one)
                 for _ in range(len(msgs) + 2):
-                    out = await self._read(tr, 2.0, rec, got)
+                    n_data = sum(1 for g_ in got if isinstance(g_, bytes) and g_ != b"")
+                    T_: Any = None if plan.get("untimed") and n_data < len(msgs) else 2.0
+                    out = await self._read(tr, T_, rec, got)
                     if out != "ok" or (got and got[-1] == b""):
                         break
                 await tr.close()
-                await asyncio.sleep(0.05)
+                await asyncio.sleep(0.05 + (plan.get("peer_reads_late") or 0.0) * 1.1)
                 return None
             # server modes
             seen: list[bytes] = []
@@ -434,6 +443,10 @@ class C19(Check):
         res["faults"] = {}
         if n_split:
             bump(res["faults"], "explicit_splits", n_split)
+        if plan.get("peer_reads_late") and mode == "client":
+            bump(res["faults"], "peer_reads_only_after_the_client_closed")
+        if plan.get("untimed") and mode == "client":
+            bump(res["faults"], "untimed_reads_after_timed_ones")
         if plan.get("bystander") and mode == "server":
             bump(res["faults"], "second_connection_at_the_same_time")
         if holder.get("loop") is not None and holder["loop"].stalls:
